@@ -326,7 +326,7 @@ def proof_leg(ctx):
     rc, out = print_assumptions(th, ctx.build)
     info["properties_compile_rc"] = rc
     assum = re.findall(r'(Closed under the global context|Axioms:\n(?:.+\n)+?)(?=\n|\Z)', out)
-    info["print_assumptions"] = [a.strip()[:400] for a in assum][:12]
+    info["print_assumptions"] = [a.strip()[:400] for a in assum][:60]
     info["theorems"] = STMT_RE.findall(open(os.path.join(COQ, th)).read())
     if rc != 0:
         info["compile_error"] = out[-1500:]
